@@ -237,3 +237,60 @@ def check(ctx, run):
             if not r["raises"]:
                 judge(fname, fi, r["value"])
     run.require("C17.R6", 40)
+
+
+def no_override_rule(ctx, run):
+    """R7: the inductive invariant is about BasePrimary's state operations; it covers a concrete instrument only if that class does not
+    replace them: to / register_buffer / _parse_to / buffers / named_buffers / get_buffer / spot resolve (through the MRO computed from the
+    sources) to BasePrimary for the 8 primaries, and to / dtype / device to BaseDerivative for the derivative classes; no primary class
+    keeps tensor state outside `_buffers` (a cached series survives a later to())."""
+    import ast
+    prog = ctx.prog
+    run.require("C17.R7", 8)
+    ops = ("to", "register_buffer", "_parse_to", "buffers", "named_buffers", "get_buffer", "spot", "__getattr__", "cpu", "cuda", "double", "float", "half", "bfloat16")
+    for cls in primary_classes(prog):
+        short = cls.rsplit(".", 1)[-1]
+        bad = []
+        for m_ in ops:
+            fi = prog.lookup_method(cls, m_)
+            if fi is not None and not fi.qualname.startswith((BASE + ".", "pfhedge.instruments.base.BaseInstrument.")):
+                bad.append(f"{m_} is overridden by {fi.qualname}")
+        # tensor state outside the buffer table: self.<name> = <something computed from buffers> in a method other than __init__
+        ci = prog.classes[cls]
+        for node in ast.walk(ci.node):
+            if isinstance(node, ast.FunctionDef) and node.name != "__init__":
+                for st in ast.walk(node):
+                    if isinstance(st, (ast.Assign, ast.AugAssign, ast.AnnAssign)):
+                        tgts = st.targets if isinstance(st, ast.Assign) else [st.target]
+                        val = getattr(st, "value", None)
+                        # tensor-valued: derived from a buffer / a generator result / a torch call (a float or flag kept for bookkeeping is not state of this kind)
+                        tensorish = val is not None and any(
+                            (isinstance(n_, ast.Attribute) and n_.attr in ("spot", "variance", "volatility")) or
+                            (isinstance(n_, ast.Call) and (ast.unparse(n_.func).startswith(("torch.", "generate_")) or ast.unparse(n_.func).split(".")[-1] in ("get_buffer", "sqrt", "clamp", "exp", "log", "square", "clone", "detach", "to")))
+                            for n_ in ast.walk(val))
+                        for t_ in tgts:
+                            if tensorish and isinstance(t_, ast.Attribute) and isinstance(t_.value, ast.Name) and t_.value.id == "self":
+                                bad.append(f"{node.name} stores self.{t_.attr} (tensor state outside _buffers is not re-cast by to())")
+        run.oblige("C17.R7", f"{short}: state operations are BasePrimary's, no tensor state outside _buffers", not bad, "; ".join(bad))
+        if bad:
+            run.fail(Finding("C17.R7", cls, "; ".join(bad)[:300], "this instrument escapes the cast/simulate invariant: something it holds is not re-cast when the instrument is moved",
+                             file=str(prog.modules[ci.module].path), line=ci.node.lineno))
+    DBASE = "pfhedge.instruments.derivative.base.BaseDerivative"
+    for cls in sorted(c for c in prog.subclasses(DBASE) if c.startswith("pfhedge.instruments.derivative.") and c != DBASE):
+        bad = []
+        for m_ in ("to", "dtype", "device", "cpu", "cuda", "double", "float", "half", "bfloat16"):
+            fi = prog.lookup_method(cls, m_)
+            if fi is not None and not fi.qualname.startswith((DBASE + ".", "pfhedge.instruments.base.BaseInstrument.")):
+                bad.append(f"{m_} is overridden by {fi.qualname}")
+        run.oblige("C17.R7", f"{cls.rsplit('.', 1)[-1]}: to/dtype/device are BaseDerivative's", not bad, "; ".join(bad))
+        if bad:
+            ci = prog.classes[cls]
+            run.fail(Finding("C17.R7", cls, "; ".join(bad)[:300], "this derivative replaces the forwarding of casts to its underliers", file=str(prog.modules[ci.module].path), line=ci.node.lineno))
+
+
+_check_before_override = check
+
+
+def check(ctx, run):  # noqa: F811
+    _check_before_override(ctx, run)
+    no_override_rule(ctx, run)
